@@ -28,6 +28,7 @@ CONSTANTS
 None == [k |-> "none"]
 RolesB(rs) == [k |-> "roles", r |-> rs]
 Alias(n) == [k |-> "alias", n |-> n]
+AnyRule == [k |-> "any"]
 Range(s) == {s[i] : i \in DOMAIN s}
 NoRules == [n \in Names |-> None]
 IsEmptyRules(r) == \A n \in Names : r[n].k = "none"
@@ -142,6 +143,7 @@ RECURSIVE Allowed(_, _, _)
 Allowed(rules, n, fuel) ==
   IF n \notin Names \/ rules[n].k = "none" \/ fuel = 0 THEN {}
   ELSE IF rules[n].k = "roles" THEN rules[n].r
+  ELSE IF rules[n].k = "any" THEN {"*"}          \* the always-allow rule: every role (written "*")
   ELSE Allowed(rules, rules[n].n, fuel - 1)
 Decisions(rules) == [n \in Names |-> Allowed(rules, n, 4)]
 
